@@ -436,7 +436,7 @@ pub fn generate(profile: &str, seed: u64, krate: &str) -> Program {
         };
         g.pre.clear();
         let (expr, truth) = if profile == "bigdeque" && i == 0 {
-            // the defect repaired by 6655f7c: capacity 16000 > CAP_GUARD, head 11990
+            // the defect repaired by 26a941a: capacity 16000 > CAP_GUARD, head 11990
             ("{ let mut d = VecDeque::<u32>::with_capacity(16000); for i in 0..12000u32 { d.push_back(i); } for _ in 0..11990 { d.pop_front(); } d }".to_string(),
              T::Seq((11990..12000u32).map(|i| T::Num(i.to_string())).collect()))
         } else if profile == "bigdeque" {
